@@ -741,6 +741,7 @@ void CDNS::FilePreamble::reset()
 {
     m_major_format_version = VERSION_MAJOR;
     m_minor_format_version = VERSION_MINOR;
-    m_private_version = VERSION_PRIVATE;
+    // Optional item: stays absent unless it's present in the input
+    m_private_version = boost::none;
     m_block_parameters = {BlockParameters()};
 }
